@@ -69,7 +69,14 @@ def build_objstm(members, rng, sp, trailing_ws, member_sep):
         elif trailing_ws:
             body += trailing_ws
     # a separator is required between two members only where their tokens would merge; a single space is always legal
-    head = b" ".join(b"%d %d" % (n, o) for n, o in offs) + rng.choice([b"\n", b" ", b"\r\n"])
+    # ... and between the last header integer and the first member only when that member starts with a regular character: a first
+    # member that starts with a delimiter may follow the header directly (/First = length of the header, no white-space at all)
+    head_end = rng.choice([b"\n", b" ", b"\r\n"])
+    build_objstm.head_abuts = False
+    if texts and texts[0][:1] in (b"[", b"(", b"<", b"/") and rng.random() < 0.5:
+        head_end = b""
+        build_objstm.head_abuts = True
+    head = b" ".join(b"%d %d" % (n, o) for n, o in offs) + head_end
     return bytes(head) + bytes(body), len(head)
 
 
@@ -160,7 +167,7 @@ def generate(rng, tier):
             pos = "first" if idx == 0 else ("last" if idx == n - 1 else "middle")
             exp = ok(S.canon(v))
             tags = ["kind:" + type(v).__name__, "pos:" + pos, "filter:%s" % filt, "trail:%r" % trailing,
-                    "members-abutting:%s" % ("yes" if build_objstm.abuts else "no")]
+                    "members-abutting:%s" % ("yes" if build_objstm.abuts else "no"), "header-abutting:%s" % ("yes" if build_objstm.head_abuts else "no")]
             yield Case("resolve_one", [b"s", data, str(dn).encode()], expect=exp, model=False, tags=tags + ["direct"])
             # hex / a85: the model receives the stream's encoded content and decodes it with its own (proved) decoder
             mf = [str(first).encode(), str(n).encode(), str(idx).encode()] + ([make_file.raw, filt.encode()] if filt in ("hex", "a85") else [payload])
